@@ -187,6 +187,7 @@ static void threads_exec(const Plan *p, int preempt)
 	net_reset(); mon_reset(); cap_reset();
 	g_sim.stay_num = preempt ? 1 : 1; g_sim.stay_den = preempt ? 2 : 1;
 	g_sim.next_event = net_next_event;
+	g_sim.on_quiesce = quiesce_handler;
 	g_sim.step_cap = 60000000;     /* function-entry preemption yields millions of times */
 	int nt = (int)p->ntasks;
 	if (nt > MAX_WT) nt = MAX_WT;
